@@ -22,7 +22,8 @@ EXTENDS Cheats, Bytecode, Keccak, FiniteSets
 CONSTANT MEMCAP      \* memory accesses ending above MEMCAP bytes are "out of gas"
 
 STACK_LIMIT == 1024
-DEPTH_LIMIT == 1024
+\* (the one-byte instance used for exhaustive model checking, EvmSmall, gets a call-depth limit it can reach)
+DEPTH_LIMIT == IF WB = 1 THEN 6 ELSE 1024
 
 -----------------------------------------------------------------------------
 (* finite maps with a default *)
@@ -177,6 +178,12 @@ Transfer(world, from, to, v) ==
 
 IDENTITY == WFromNat(4)
 IsCheatAddr(m, a) == a \in m.env.cheatAddrs
+
+\* Initial contents of storage.  A slot that was never written reads zero, except in accounts with
+\* symbolic ("arbitrary") storage, where it reads the arbitrary-but-fixed word the environment chose
+\* for that slot: slot xor env.symmask (the harness interprets halmos' initial storage terms alike).
+StorageDefault(m, a, slot) == IF a \in m.env.symstore THEN WXor(slot, m.env.symmask) ELSE Zero
+SLoad(m, a, slot) == Get(m.world.storage, <<a, slot>>, StorageDefault(m, a, slot))
 IsPrecompileOrOpaque(m, a) ==
     \/ (~BIsZero(a) /\ BCmp(a, WFromNat(10)) <= 0 /\ a # IDENTITY)
     \/ a \in m.env.opaque
@@ -221,7 +228,10 @@ CheatCall(m, f, to, args, retOff, retSize) ==
               ELSE IF ~Exists(m.world, AddrOf(a0)) THEN Unmodelled_(m)
               ELSE [ok(m) EXCEPT !.world.storage = Put(m.world.storage, <<AddrOf(a0), a1>>, a2), !.cheated = TRUE]
          [] d.kind = "load" ->
-              CheatRet(m, f, Get(m.world.storage, <<AddrOf(a0), a1>>, Zero), retOff, retSize)
+              CheatRet(m, f, SLoad(m, AddrOf(a0), a1), retOff, retSize)
+         [] d.kind = "symstore" ->                                   \* svm.enableSymbolicStorage / vm.setArbitraryStorage
+              IF ~Exists(m.world, AddrOf(a0)) THEN Unmodelled_(m)
+              ELSE [ok(m) EXCEPT !.env.symstore = @ \cup {AddrOf(a0)}]
          [] d.kind = "deal" ->
               [ok(m) EXCEPT !.world.balance = Put(m.world.balance, AddrOf(a0), a1), !.cheated = TRUE]
          [] d.kind = "warp" -> [ok(m) EXCEPT !.env.timestamp = a0]
@@ -391,7 +401,7 @@ Step(m) ==
             LET off == Nat_(A(0))
             IN IF TooBig(off, 1) THEN Exc(m, "OutOfGas")
                ELSE GoF([f EXCEPT !.stack = Rest(2), !.mem = MemWrite(f.mem, off, <<A(1)[WB]>>)])
-      [] op = 84 -> W1(Get(m.world.storage, <<f.this, A(0)>>, Zero))
+      [] op = 84 -> W1(SLoad(m, f.this, A(0)))
       [] op = 85 ->                                                                   \* SSTORE
             IF f.static THEN Exc(m, "StaticWrite")
             ELSE [Go(Rest(2)) EXCEPT !.world.storage = Put(m.world.storage, <<f.this, A(0)>>, A(1))]
